@@ -22,7 +22,7 @@ RULE = ('cases are 1-4 exchanges; each exchange encrypts one generated message (
         'faulted delivery reached a decrypt call; distinct = distinct (producer, recipient kinds, fault kind) sets among '
         'non-trivial runs')
 TIERS = {"quick": {"runs": 6000, "budget_s": 90}, "thorough": {"runs": 150000, "budget_s": 1500}}
-PROBES = ('fault_raised', 'fault_same_plaintext', 'fault_not_encrypted_refusal', 'wrong_pass_raised', 'non_recipient_raised',
+PROBES = ('wrong_credential_on_live_object', 'fault_raised', 'fault_same_plaintext', 'fault_not_encrypted_refusal', 'wrong_pass_raised', 'non_recipient_raised',
           'splice_two_messages', 'sweep_bits', 'producer_ref', 'producer_pgpy', 'multi_recipient')
 FAULTS = ('flip_esk', 'flip_esk', 'flip_version', 'flip_body', 'flip_body', 'flip_mdc', 'flip_header', 'truncate_raw', 'truncate_reframed',
           'extend_inside', 'extend_after', 'swap_blocks', 'splice_container', 'splice_esk', 'mdc_swap', 'drop_esk', 'dup_esk',
@@ -245,13 +245,21 @@ def execute(case, ctx):
                 mb[f['bitpos'] // 8] ^= 1 << (f['bitpos'] % 8)
                 _deliver(pgpy, R, bytes(mb), recips, orig_shape, 'sweep', ctx, step)
                 continue
+            live = getattr(R, 'last_live_enc', None) if step['producer'] == 'pgpy' and f['alt'] % 2 else None
             if f['kind'] == 'wrong_pass':
-                _wrong_credential(pgpy, R, enc, ('pass', 'not the passphrase ' + str(f['alt'])), recips, ctx)
+                wrongs = ['not the passphrase ' + str(f['alt']), 'correct horse ', 'X'][:1 + f['alt'] % 3]
+                if live is not None:
+                    _wrong_credential_live(pgpy, R, live, ('pass', wrongs[-1]), ctx)
+                else:
+                    _wrong_credential(pgpy, R, enc, ('pass', wrongs[-1]), recips, ctx)
                 continue
             if f['kind'] == 'non_recipient':
                 non = [n for n in names if ['key', n] not in recips]
                 if non:
-                    _wrong_credential(pgpy, R, enc, ('key', non[f['alt'] % len(non)]), recips, ctx)
+                    if live is not None:
+                        _wrong_credential_live(pgpy, R, live, ('key', non[f['alt'] % len(non)]), ctx)
+                    else:
+                        _wrong_credential(pgpy, R, enc, ('key', non[f['alt'] % len(non)]), recips, ctx)
                 continue
             try:
                 mut = apply_fault(enc, other, f, bs)
@@ -283,6 +291,8 @@ def _produce(pgpy, R, step, recips, ctx, tag):
         ctx.probe('producer_pgpy')
         try:
             enc, _ = encworld.pgpy_encrypt(pgpy, msg, recips, R, cid)
+            if tag == 'a':
+                R.last_live_enc = enc
             return bytes(enc), orig_bytes, orig_shape
         except Exception as e:
             ctx.event(step['id'], 'encrypt-refused', type(e).__name__)
@@ -364,3 +374,21 @@ def _wrong_credential(pgpy, R, enc, cred, recips, ctx):
     ctx.viol('C04:wrong-credential-accepted:%s' % kind,
              'decrypting with a %s that is not a recipient credential returned %s instead of raising'
              % ('passphrase' if kind == 'pass' else 'private key', 'the input' if dec is None else 'a message'))
+
+
+def _wrong_credential_live(pgpy, R, live, cred, ctx):
+    """the same on the message object encrypt() has just returned, without any trip through octets"""
+    kind, who = cred
+    ctx.fault('F7_' + kind)
+    ctx.checked()
+    ctx.probe('wrong_credential_on_live_object')
+    try:
+        dec = R.keys[who].decrypt(live) if kind == 'key' else live.decrypt(who)
+    except Exception:
+        ctx.probe('wrong_pass_raised' if kind == 'pass' else 'non_recipient_raised')
+        return
+    if dec is live and kind == 'key' and not live.is_encrypted:
+        return
+    ctx.viol('C04:wrong-credential-accepted:%s:live' % kind,
+             'decrypting the message object returned by encrypt() with a %s that is not a recipient credential did not raise'
+             % ('passphrase' if kind == 'pass' else 'private key'))
